@@ -25,6 +25,14 @@ def venueIxOp (op : String) (a : List Int) : Option String :=
       | "vn.kwd", [now, amount, all, expected, obPre, obPost, vPre, vPost] =>
         some (showResB ((kaminoWithdraw now b bal amount (s2b all) (fun _ => expected) obPre obPost vPre vPost).map fun o =>
           s!"{showBank o.bank} {o.bank.lastUpdate} {showBal o.bal} {o.collateral} {o.paid}"))
+      | "vn.ddep", [now, amount, dec, cum, pre, post] =>
+        some (showResB ((driftDeposit now b bal amount dec cum pre post).map fun (b', x', t) =>
+          match x' with
+          | some y => s!"{showBank b'} {b'.lastUpdate} 1 {showBal y} {t}"
+          | none => s!"{showBank b'} {b'.lastUpdate} 0 0 0 0 0 0 0 {t}"))
+      | "vn.dwd", [now, amount, all, dec, cum, sbPre, sbPost, vPre, vPost] =>
+        some (showResB ((driftWithdraw now b bal amount (s2b all) dec cum sbPre sbPost vPre vPost).map fun o =>
+          s!"{showBank o.bank} {o.bank.lastUpdate} {showBal o.bal} {o.tokens} {o.scaled}"))
       | _, _ => some "bad-args"
     | none => some "bad-args"
   | _ => some "bad-args"
